@@ -17,12 +17,16 @@ All geometry is produced by the REAL mulgrids code of the module object `M`
 #   ('at', i)    s == z_i                     (i >= 0)
 #   'above'      s > z0
 #   'below'      s < zn
+#   'free'       any real
 SURF_PATTERNS = {
     'default': ['def'],
     'in1': [('in', 1)],
     'mixed': [('in', 1), 'above', ('in', 2), ('at', 0), ('in', 1), ('at', 1), ('in', 2), 'above', 'def'],
     'mixed2': [('in', 2), ('in', 1), 'below', 'above', ('at', 1), ('in', 2), 'def', ('in', 1), ('at', 0)],
     'deep': [('in', 2), 'below', ('in', 2), ('at', 2)],
+    'sparse': ['def', ('in', 1), 'above', 'def', ('in', 2), 'def'],
+    'sparse2': [('in', 2), 'def', 'def', ('at', 1), 'def', 'below'],
+    'free': ['free'],          # unconstrained: the code under test forks on its position
 }
 
 
@@ -41,7 +45,8 @@ def assign_surfaces(geo, fam, env):
         code = surface_code(fam, i)
         if code == 'def': continue
         nm = 's%d' % i
-        if code == 'above': s = env.between(nm, z[0], None)
+        if code == 'free': s = env.free(nm)
+        elif code == 'above': s = env.between(nm, z[0], None)
         elif code == 'below': s = env.between(nm, None, z[-1])
         elif code[0] == 'in': s = env.between(nm, z[code[1]], z[code[1] - 1])
         else: s = z[code[1]] + 0.0
@@ -87,7 +92,9 @@ def build(M, fam, env):
         nd.pos = np.array([ox + a, oy + b])
         for col in geo.columnlist:
             col.get_area()
-            col.centre = col.centroid
+            if fam.get('centre') == 'centroid': col.centre = col.centroid
+            # default: the centres stay where rectangular() put them (the cell
+            # centres, still strictly inside the perturbed columns)
     elif kind == 'Q1':
         # one quadrilateral (0,0) (1,0) (a,b) (0,1), a, b > 0, a + b > 1
         geo = M.mulgrid(convention=conv, atmos_type=atm)
@@ -95,10 +102,24 @@ def build(M, fam, env):
         pts = [(0., 0.), (1., 0.), (a, b), (0., 1.)]
         nm = _names(4)
         for n, (x, y) in zip(nm, pts): geo.add_node(M.node(n, np.array([ox + x, oy + y])))
-        geo.add_column(M.column(nm[0], [geo.node[n] for n in nm]))
+        if fam.get('centre') == 'centroid':
+            geo.add_column(M.column(nm[0], [geo.node[n] for n in nm]))
+        else:   # centre specified (as read from a geometry file) at (1/2, 1/2): strictly inside since a + b > 1
+            geo.add_column(M.column(nm[0], [geo.node[n] for n in nm], centre=np.array([ox + 0.5, oy + 0.5])))
         _finish(geo, fam, env, dz, oz)
     elif kind == 'HANG':
         geo = _build_hang(M, fam, env, dz, ox, oy, oz)
+    elif kind == 'MIX':
+        # 2 quadrilaterals, 2 triangles, 1 pentagon on a fixed integer layout,
+        # stretched by sx, sy > 0 (symbolic unless fam['concrete']) and moved to (ox, oy)
+        geo = M.mulgrid(convention=conv, atmos_type=atm)
+        if fam.get('concrete'): sx = sy = 1.0; ox = oy = 0.0
+        else: sx, sy = env.pos('sx'), env.pos('sy')
+        for n, (x, y) in MIX_NODES.items():
+            geo.add_node(M.node(n, np.array([ox + sx * float(x), oy + sy * float(y)])))
+        for cn, nodes in MIX_COLUMNS:
+            geo.add_column(M.column(cn, [geo.node[n] for n in nodes]))
+        _finish(geo, fam, env, dz, oz)
     elif kind == 'CONC':
         geo = M.mulgrid(convention=conv, atmos_type=atm)
         nm = _names(sum(len(p) for p in fam['polys']))
@@ -119,6 +140,12 @@ def build(M, fam, env):
     if fam.get('surf', 'default') != 'default':
         assign_surfaces(geo, fam, env)
     return geo
+
+
+MIX_NODES = {'  a': (0, 0), '  b': (2, 0), '  c': (4, 0), '  d': (0, 2), '  e': (2, 2), '  f': (4, 2),
+             '  g': (1, 4), '  h': (3, 5), '  i': (5, 4), '  j': (6, 1)}
+MIX_COLUMNS = [('  a', ['  a', '  b', '  e', '  d']), ('  b', ['  b', '  c', '  f', '  e']),
+               ('  c', ['  d', '  e', '  g']), ('  d', ['  e', '  f', '  i', '  h', '  g']), ('  e', ['  c', '  j', '  f'])]
 
 
 def _build_hang(M, fam, env, dz, ox, oy, oz):
@@ -206,8 +233,45 @@ def apply_step(M, geo, step):
         return geo.decompose_column(step['col'])
     if k == 'refine_layers':
         return geo.refine_layers(list(step['layers']), step['factor'])
+    # ---- low-level and other edits (C10) ----
+    if k == 'delete_column': return geo.delete_column(step['col'])
+    if k == 'add_column':
+        col = M.column(step['name'], [geo.node[n] for n in step['nodes']], surface=step.get('surface'))
+        geo.add_column(col)
+        if step.get('surface') is not None: geo.set_column_num_layers(col)
+        else: col.num_layers = geo.num_layers - 1 if geo.num_layers else 0
+        return col
+    if k == 'add_node': return geo.add_node(M.node(step['name'], M.np.array(list(step['pos']))))
+    if k == 'delete_node':
+        if step['name'] in geo.node: return geo.delete_node(step['name'])
+        return None
+    if k == 'add_connection':
+        return geo.add_connection(M.connection([geo.column[n] for n in step['cols']]))
+    if k == 'delete_connection': return geo.delete_connection(tuple(step['cols']))
+    if k == 'add_layer':
+        last = geo.layerlist[-1]
+        bottom = last.bottom - step['thickness']
+        return geo.add_layer(M.layer(step['name'], bottom, 0.5 * (bottom + last.bottom), last.bottom + 0.0))
+    if k == 'delete_layer': return geo.delete_layer(step['layer'])
+    if k == 'rename_column': return geo.rename_column(step['col'], step['name'])
+    if k == 'rename_layer': return geo.rename_layer(step['layer'], step['name'])
+    if k == 'add_well':
+        return geo.add_well(M.well(step['name'], [M.np.array(list(p)) for p in step['pos']]))
+    if k == 'delete_well':
+        if step['name'] in geo.well: return geo.delete_well(step['name'])
+        return None
+    if k == 'reduce': return geo.reduce(list(step['cols']))
+    if k == 'snap': return geo.snap_columns_to_layers(step['min_thickness'], list(step.get('cols', [])))
+    if k == 'snap_nearest': return geo.snap_columns_to_nearest_layers(list(step.get('cols', [])))
+    if k == 'translate': return geo.translate(list(step['shift']))
+    if k == 'rotate': return geo.rotate(step['angle'], centre=list(step['centre']))
+    if k == 'copy_layers_from':
+        other = M.mulgrid(convention=geo.convention, atmos_type=geo.atmosphere_type)
+        other.add_layers(list(step['thicknesses']), step['top'])
+        return geo.copy_layers_from(other)
     raise ValueError(k)
 
 
 # ops that promise a valid mesh afterwards (connections rebuilt)
 PROMISES_CONNECTIONS = ('refine', 'split', 'decompose')
+PROMISES_VALID_MESH = ('refine', 'split', 'decompose', 'reduce')
